@@ -292,7 +292,9 @@ func GetOutputNodes(root *html.Node) []*html.Node {
 			return false
 
 		case html.ElementNode:
-			if !IsProbablyVisible(node) {
+			// Scripts and styles never belong to the output, even when an
+			// inline display style makes them "visible".
+			if node.Data == "script" || node.Data == "style" || !IsProbablyVisible(node) {
 				return false
 			}
 			outputNodes = append(outputNodes, node)
